@@ -56,11 +56,14 @@ double complex _vnacal_rfi(const double *xp, double complex *yp,
 {
     int findex = -1, term = -1;
 
-    (void)m; (void)segment;
+    (void)segment;
     if (ghost_calp == NULL)		/* parameter evaluation elsewhere: not used here */
 	return 0.0;
     CHECK(xp == ghost_calp->cal_frequency_vector && n == ghost_calp->cal_frequencies,
 	    "error terms are interpolated over the calibration's own frequency grid");
+    CHECK(m == (n < VNACAL_MAX_M ? n : VNACAL_MAX_M),
+	    "the interpolation order follows from the calibration's own point count - not from the request "
+	    "(values do not depend on which other frequencies were asked for)");
     for (int i = 0; i < 3; ++i)
 	if (i < N_APPLY && x == apply_f[i])
 	    findex = i;
